@@ -56,6 +56,7 @@ fixed("FX-C04-01", "C04", "57be1d1", "own output > 512 bytes with an escaped str
 fixed("FX-C06-06", "C06", "32c4673", "Decoder.Decode({\"f\":\"{\\\"A\\\":1}\"}) into struct{F *In `json:\"f,string\"`} panicked (nil pointer dereference in structDecoder.Decode: wrappedStringDecoder.DecodeStream built a RuntimeContext without Option)")
 fixed("FX-C02-05", "C02", "291bc67", "Unmarshal(\"[1e39]\", &[]float32) = nil, [+Inf] (encoding/json: UnmarshalTypeError); was KF-C02-03; literals near a float32 rounding midpoint were rounded twice")
 fixed("FX-C05-02", "C05", "d42b152", "Valid(\"tru\"), Valid(\"nul\") were true and a Decoder fed byte by byte accepted txxx for true: stream literal scanners did not compare the byte delivered by a refill and took the end of input inside a literal for success (was KF-C05-06, KF-C05-07, KF-C18-V06/V07, KF-C09-R02/R03)")
+fixed("FX-C07-04", "C07", "987fef6", "unescapeString formed unsafeAdd(src, 11) beyond the input copy for a high surrogate escape near the end of a document whose copy fills its allocation size class: checkptr 'pointer arithmetic result points to invalid allocation', GC 'invalid pointer' (found by the thorough checkptr runs of C09/C02/C17 after the escape generators were repaired; C07 now enumerates allocation-edge documents in the quick tier)")
 fixed("FX-C15-01", "C15", "57be1d1", "Decoder fed 5-byte chunks failed on fully \\u-escaped keys")
 
 fixed("FX-C06-04", "C06", "0243e9f", "Compact/Indent of a 100000-deep tower: fatal out of memory / stack overflow (no nesting limit)")
